@@ -255,6 +255,20 @@ type windowMonitor struct {
 	peak [2]int64
 	full [2]int // number of times outstanding reached N
 	viol string
+	// lastNew is the time of the last first transmission per sending
+	// direction, lastRecv the time the last packet was handed over on a link.
+	lastNew  [2]int64
+	lastRecv [2]int64
+}
+
+// noNewSince reports whether the endpoint sending on direction d has made no
+// first transmission after instant t (virtual us). Together with a window that
+// is still full this means its send loop has been in the window-full wait
+// since before t: the window only grows by first transmissions.
+func (w *windowMonitor) noNewSince(d int, t int64) bool {
+	w.mu.Lock()
+	defer w.mu.Unlock()
+	return w.lastNew[d] <= t
 }
 
 func dirIdx(d string) int {
@@ -268,10 +282,14 @@ func (w *windowMonitor) observe(e vnet.TraceEvent) {
 	w.mu.Lock()
 	defer w.mu.Unlock()
 	s := int64(w.s)
+	if e.Ev == "recv" {
+		w.lastRecv[dirIdx(e.Dir)] = e.T
+	}
 	switch {
 	case e.Ev == "send" && e.Type == "DATA":
 		d := dirIdx(e.Dir)
 		if int64(e.Seq) == w.top[d]%s {
+			w.lastNew[d] = e.T
 			w.top[d]++
 			out := w.top[d] - w.base[d]
 			if out > w.peak[d] {
